@@ -320,3 +320,18 @@ func FuncKey(fn *ssa.Function) string {
 	s = strings.ReplaceAll(s, Module, ".")
 	return s
 }
+
+// ExtField resolves field fname of struct type tname of any package in the
+// import graph.
+func (w *World) ExtField(path, tname, fname string) *types.Var {
+	tn, ok := w.ExtObj(path, tname).(*types.TypeName)
+	if !ok {
+		return nil
+	}
+	obj, _, _ := types.LookupFieldOrMethod(tn.Type(), true, tn.Pkg(), fname)
+	v, _ := obj.(*types.Var)
+	if v == nil || !v.IsField() {
+		return nil
+	}
+	return v
+}
